@@ -166,9 +166,10 @@ Section Run.
   Lemma lock_effs_are_lock rc o id : Forall is_lock_eff (lock_effs rc o id).
   Proof.
     unfold lock_effs. destruct (rc_use_cache rc); [|constructor].
-    destruct (o_lock_write_fails o).
-    - constructor; [left; reflexivity|constructor].
+    destruct (o_lock_fault o).
     - constructor; [left; reflexivity|]. constructor; [right; eexists; reflexivity|constructor].
+    - constructor.
+    - constructor; [left; reflexivity|constructor].
   Qed.
 
   Lemma edit_effs_decomp rc files lk o :
@@ -359,7 +360,7 @@ Section Run.
   (* how an edit run that ends by itself (no panic) leaves the lock, with the cache in use
      and the lock write succeeding *)
   Theorem edit_final_lock rc files lk o :
-    files <> [] -> rc_use_cache rc = true -> o_lock_write_fails o = false ->
+    files <> [] -> rc_use_cache rc = true -> o_lock_fault o = LkOk ->
     let out := run_edit P finder start_id rc (Some files) lk o in
     let wf := apply_effs (mkWorld files [] lk) (ro_effs out) in
     ro_exit out <> XPanic -> ro_exit out <> XHang ->
